@@ -116,6 +116,14 @@ def cases(tier, seed):
         for di, delta in enumerate((5e-3, 5e-7, 5e-11)):
             for kind in ("id", "hh"):
                 out.append({"key": f"neareig/n={n}/d={di}/{kind}", "cls": "neareig", "n": n, "scale": 1.0, "delta": delta, "kind": kind})
+    # mid-cycle lucky breakdown: the restart residual after cycle 1 is an exact eigenvector, so cycle 2 breaks
+    # down at its FIRST Arnoldi step (j = 0 < m - 1); rotated by a unitary so that the basis vector is not a
+    # coordinate vector, padded with a decoupled c*I block (raises ||A|| so that the exact test fires)
+    for ui in range(1, 4):
+        for si, sv_ in enumerate(([1.0, 0, 0, 0], [0, 0, 1.0, 0])):
+            for bi in range(2):
+                for pad in (2, 3):
+                    out.append({"key": f"midcycle/u={ui}/s={si}/b={bi}/pad={pad}", "cls": "midcycle", "n": 2 + pad, "scale": 1.0, "u": ui, "s": list(sv_), "b": bi, "pad": pad})
     return out
 
 
@@ -147,6 +155,28 @@ def build(case, seed):
             if (case["sub"] >> i) & 1:
                 b[i, 0] = [1.0, 0.5 * i, 0, -0.25]
         bs.append(("subset", b))
+    elif cls == "midcycle":
+        l = 2.0
+        s_ = np.array(case["s"], float)
+        b2 = np.array([1.0, 0, 0, 0]) if case["b"] == 0 else np.array([1.0, 1.0, 0, 0])
+        b1 = -O.qmul(s_, b2) / l
+        J = np.zeros((2, 2, 4))
+        J[0, 0, 0] = J[1, 1, 0] = l
+        J[0, 1] = s_
+        uq = G.UNITS[case["u"]].astype(float)
+        Mq = np.zeros((2, 2, 4))
+        Mq[0, 0, 0] = Mq[1, 1, 0] = 1.0
+        Mq[0, 1] = uq
+        Mq[1, 0] = -uq * O.CONJ
+        A2 = 0.5 * O.qmatmul(O.qmatmul(Mq, J), O.qH(Mq))  # (M/sqrt2) J (M/sqrt2)^H, exact
+        bvec = O.qmatmul(Mq, np.stack([b1, b2]).reshape(2, 1, 4))
+        A = np.zeros((n, n, 4))
+        A[:2, :2] = A2
+        for t in range(2, n):
+            A[t, t, 0] = 64.0
+        b = np.zeros((n, 1, 4))
+        b[:2] = bvec
+        bs.append(("midcycle", b))
     elif cls == "neareig":
         lam = [0.01, 1.0, 2.0, -1.5][:n]
         V = G.unitary(case["kind"], n, fill, variant=n)
